@@ -1,37 +1,5 @@
-(* util.slice_to_ascending_slice (regenerated from source in Gen.Gen_util) selects the same
-   positions as the key, in ascending order -- under the guard that start/stop are
-   non-negative or None.  Outside the guard it is wrong (Refuted/C08.v). *)
-Require Import SF.Prelude SF.PySlice SF.Dtype SF.PyDyn Gen.Gen_util Proofs.SliceFacts.
-
-Definition asc_typed (k : slice) (n : Z) : slice :=
-  match s_step k with
-  | None => k
-  | Some st =>
-    if st >? 0 then k else
-    let stop' := match s_start k with None => None | Some a => Some (a + 1) end in
-    if st =? -1 then mk_slice (match s_stop k with None => None | Some b => Some (b + 1) end) stop' (Some 1)
-    else
-      let s := Z.abs st in
-      let a := match s_start k with None => n - 1 | Some a => Z.min (n - 1) a end in
-      let a' := match s_stop k with None => a - s * (a / s) | Some b => a - s * ((a - b - 1) / s) end in
-      mk_slice (Some a') stop' (Some s)
-  end.
-
-(* the regenerated dynamic kernel computes the typed function on well-typed arguments *)
-Lemma asc_typed_refines k n : s_step k <> Some 0 ->
-  slice_to_ascending_slice (of_slice k) (PInt n) = of_slice (asc_typed k n).
-Proof.
-  destruct k as [[a|] [b|] [st|]]; intros Hst; cbn in Hst; (try assert (Hst' : st <> 0) by congruence); unfold asc_typed; cbn [s_step s_start s_stop];
-    try reflexivity;
-    unfold slice_to_ascending_slice, of_slice; cbn [s_step s_start s_stop of_oz];
-    cbn -[Z.mul Z.div Z.add Z.sub Z.min Z.abs Z.gtb Z.eqb];
-    (destruct (st >? 0) eqn:Hpos; [reflexivity|]);
-    cbn -[Z.mul Z.div Z.add Z.sub Z.min Z.abs Z.gtb Z.eqb];
-    (destruct (st =? -1) eqn:Hm1; [reflexivity|]);
-    cbn -[Z.mul Z.div Z.add Z.sub Z.min Z.abs Z.gtb Z.eqb];
-    (assert (Hab : Z.abs st =? 0 = false) by lia);
-    rewrite ?Hab; reflexivity.
-Qed.
+(* Arithmetic correctness of the typed form of util.slice_to_ascending_slice. *)
+Require Import SF.Prelude SF.PySlice SF.Dtype SF.PyDyn Gen.Gen_util Proofs.SliceFacts Proofs.AscSliceRefine.
 
 Definition asc_dom (k : slice) : bool :=
   match s_start k with Some a => 0 <=? a | None => true end &&
